@@ -78,7 +78,7 @@ func corrOnce(r *rng, c *caseOut, n int) {
 			c.tag("once-" + e.Kind())
 			rec := s.Rec()
 			c.add(fmt.Sprintf("once %s | %s", prog, joinU64(ws)),
-				fmt.Sprintf("err=%s evs=%s rest=%d %s pruned=%s prunecheck=ok", showErr(e), showInvEvents(inv), len(s.Rest()), showRec(rec), prunedData(rec)))
+				fmt.Sprintf("err=%s evs=%s rest=%d %s pruned=%s prunecheck=ok srcprune=ok", showErr(e), showInvEvents(inv), len(s.Rest()), showRec(rec), prunedData(rec)))
 		}
 	})
 }
